@@ -172,3 +172,54 @@ pub fn batch_with_fold_snapshot<'a>(a: SO<'a, i32>, b: SU<'a, i32>) -> SO<'a, (V
         .snapshot(&tick, nondet!(/** sim decision */));
     batch.zip(snap).all_ticks()
 }
+
+/// `KeyedStreamHook<_, _, NoOrder>` + inline `KeyedStreamOrderHook` (keyed `assume_ordering` inside
+/// a tick); the per-key order the hook chose is visible in the per-key `Vec`s.
+pub fn keyed_order_in_tick<'a>(input: SU<'a, (u32, i32)>) -> SO<'a, Vec<(u32, Vec<i32>)>> {
+    let tick = input.location().tick();
+    input
+        .into_keyed()
+        .batch(&tick, nondet!(/** sim decision */))
+        .assume_ordering::<TotalOrder>(nondet!(/** sim decision */))
+        .fold(q!(|| Vec::new()), q!(|acc, v| acc.push(v)))
+        .entries()
+        .assume_ordering::<TotalOrder>(nondet!(/** observer */))
+        .collect_vec()
+        .all_ticks()
+}
+
+/// `TopLevelKeyedStreamOrderHook` followed by `TopLevelPartiallyOrderedStreamHook`.
+pub fn top_keyed_order<'a>(input: SU<'a, (u32, i32)>) -> SO<'a, (u32, i32)> {
+    input
+        .into_keyed()
+        .assume_ordering::<TotalOrder>(nondet!(/** sim decision */))
+        .entries_partially_ordered(nondet!(/** sim decision */))
+}
+
+/// Inline `MergeOrderedHook`: two ordered batches of one tick merged in order.
+pub fn merge_in_tick<'a>(a: SO<'a, i32>, b: SO<'a, i32>) -> SO<'a, Vec<i32>> {
+    let tick = a.location().tick();
+    let ba = a.batch(&tick, nondet!(/** sim decision */));
+    let bb = b.batch(&tick, nondet!(/** sim decision */));
+    ba.merge_ordered(bb, nondet!(/** sim decision */))
+        .collect_vec()
+        .all_ticks()
+}
+
+/// `TopLevelKeyedMergeOrderedHook` (then a `TopLevelPartiallyOrderedStreamHook` observer).
+pub fn top_keyed_merge<'a>(a: SO<'a, (u32, i32)>, b: SO<'a, (u32, i32)>) -> SO<'a, (u32, i32)> {
+    a.into_keyed()
+        .merge_ordered(b.into_keyed(), nondet!(/** sim decision */))
+        .entries_partially_ordered(nondet!(/** observer */))
+}
+
+/// Inline `KeyedMergeOrderedHook`: two keyed ordered batches of one tick merged per key.
+pub fn keyed_merge_in_tick<'a>(a: SO<'a, (u32, i32)>, b: SO<'a, (u32, i32)>) -> SO<'a, Vec<(u32, i32)>> {
+    let tick = a.location().tick();
+    let ba = a.into_keyed().batch(&tick, nondet!(/** sim decision */));
+    let bb = b.into_keyed().batch(&tick, nondet!(/** sim decision */));
+    ba.merge_ordered(bb, nondet!(/** sim decision */))
+        .entries_partially_ordered(nondet!(/** observer */))
+        .collect_vec()
+        .all_ticks()
+}
